@@ -179,4 +179,192 @@ theorem leaf_hits_are_results (p : List (Step J)) (hne : p ≠ []) (hs : PredsSt
           resultsOf_attempt, resultsOf_append, resultsOf_nil, hitems, List.append_nil]
         rw [← List.append_assoc, this]
 
+/-! ### the same through the first exception
+
+The machine's trace, when a predicate raises, is the stream *through its first `raised` event*.
+Hits and results stay aligned on that prefix because every hit is directly followed by its
+result: -/
+
+/-- every hit is directly followed by its result, and there is no other result -/
+inductive Paired (L : Nat) : List (Ev J) → Prop
+  | nil : Paired L []
+  | hit (l m : MNode J) (t : List (Ev J)) : Paired L t → Paired L (.attempt l L (some m) none :: .result m :: t)
+  | other (e : Ev J) (t : List (Ev J)) : leafHit L e = none → (∀ m, e ≠ .result m) → Paired L t → Paired L (e :: t)
+
+theorem Paired.append {L : Nat} {a b : List (Ev J)} (ha : Paired L a) (hb : Paired L b) : Paired L (a ++ b) := by
+  induction ha with
+  | nil => simpa using hb
+  | hit l m t _ ih => exact .hit l m _ ih
+  | other e t h1 h2 _ ih => exact .other e _ h1 h2 ih
+
+theorem Paired.flatMap {L : Nat} {β} (f : β → List (Ev J)) (l : List β) (h : ∀ x ∈ l, Paired L (f x)) :
+    Paired L (l.flatMap f) := by
+  induction l with
+  | nil => exact .nil
+  | cons x xs ih =>
+    simp only [List.flatMap_cons]
+    exact (h x (by simp)).append (ih (fun y hy => h y (List.mem_cons_of_mem _ hy)))
+
+/-- aligned: the hits are the results -/
+theorem Paired.hits_eq {L : Nat} {evs : List (Ev J)} (h : Paired L evs) : leafHits L evs = resultsOf evs := by
+  induction h with
+  | nil => rfl
+  | hit l m t _ ih => simp [ih]
+  | other e t h1 h2 _ ih =>
+    have a : leafHits L (e :: t) = leafHits L t := by simp [leafHits, List.filterMap_cons, h1]
+    have b : resultsOf (e :: t) = resultsOf t := by
+      cases e <;> simp [resultsOf, List.filterMap_cons]
+      exact absurd rfl (h2 _)
+    rw [a, b, ih]
+
+/-- … and stay so on the prefix through the first exception -/
+theorem Paired.ttr {L : Nat} {evs : List (Ev J)} (h : Paired L evs) : Paired L (takeThroughRaise evs) := by
+  induction h with
+  | nil => exact .nil
+  | hit l m t _ ih => simpa [takeThroughRaise] using Paired.hit l m _ ih
+  | other e t h1 h2 _ ih =>
+    cases e with
+    | raised x => simpa [takeThroughRaise] using Paired.other (.raised x) [] h1 h2 .nil
+    | attempt l i nx st => simpa [takeThroughRaise] using Paired.other _ _ h1 h2 ih
+    | predCall c => simpa [takeThroughRaise] using Paired.other _ _ h1 h2 ih
+    | fnCall nm a => simpa [takeThroughRaise] using Paired.other _ _ h1 h2 ih
+    | result c => exact absurd rfl (h2 c)
+    | stop => simpa [takeThroughRaise] using Paired.other _ _ h1 h2 ih
+
+/-- events of a predicate that keeps to itself -/
+theorem paired_of_own (L : Nat) (evs : List (Ev J)) (h1 : attemptsTop evs = 0) (h2 : resultsOf evs = []) : Paired L evs := by
+  induction evs with
+  | nil => exact .nil
+  | cons e t ih =>
+    cases e with
+    | attempt l vi nx st =>
+      cases st with
+      | none => rw [attemptsTop_attempt] at h1; omega
+      | some s =>
+        have a : attemptsTop t = 0 := by simpa [attemptsTop, List.countP_cons] using h1
+        have b : resultsOf t = [] := by simpa [resultsOf, List.filterMap_cons] using h2
+        exact .other _ _ (by cases nx <;> rfl) (by intro m hm; cases hm) (ih a b)
+    | predCall c =>
+      rw [attemptsTop_predCall] at h1
+      exact .other _ _ rfl (by intro m hm; cases hm) (ih h1 (by simpa using h2))
+    | result c => simp at h2
+    | raised x =>
+      rw [attemptsTop_raised] at h1
+      exact .other _ _ rfl (by intro m hm; cases hm) (ih h1 (by simpa [resultsOf, List.filterMap_cons] using h2))
+    | fnCall nm a =>
+      have a' : attemptsTop t = 0 := by simpa [attemptsTop, List.countP_cons] using h1
+      exact .other _ _ rfl (by intro m hm; cases hm) (ih a' (by simpa [resultsOf, List.filterMap_cons] using h2))
+    | stop =>
+      have a' : attemptsTop t = 0 := by simpa [attemptsTop, List.countP_cons] using h1
+      exact .other _ _ rfl (by intro m hm; cases hm) (ih a' (by simpa [resultsOf, List.filterMap_cons] using h2))
+
+theorem paired_miss (L : Nat) (l : MNode J) (i : Nat) : Paired L [.attempt l i none none] :=
+  .other _ _ rfl (by intro m hm; cases hm) .nil
+
+theorem paired_recChild (k : MNode J → List (Ev J)) (last : Bool) (vi L : Nat)
+    (hB : last = true ↔ vi + 1 = L)
+    (hk : ∀ n' m : MNode J, Paired L (.attempt n' (vi+1) (some m) none :: k m)) :
+    ∀ (N : Nat) (x : J), J.sz x ≤ N → ∀ (n : MNode J) (nm : Name), Paired L (recChild k last vi n nm x) := by
+  intro N
+  induction N with
+  | zero => intro x hx; cases x <;> simp [J.sz] at hx
+  | succ N ihN =>
+    intro x hx n nm
+    cases hc : allItems x.view with
+    | none =>
+      rw [recChild_scalar _ _ _ _ _ _ hc]
+      by_cases hl : last = true
+      · have e := hB.mp hl
+        simp only [hl, if_true, e]
+        exact .hit _ _ _ .nil
+      · have hne : ¬ vi + 1 = L := fun e => hl (hB.mpr e)
+        simp only [hl]
+        exact .other _ _ (by simp [leafHit, hne]) (by intro m hm; cases hm) (paired_miss L _ _)
+    | some its =>
+      rw [recChild_container _ _ _ _ _ _ its hc]
+      have hsmall : ∀ nm' x', (nm', x') ∈ its → J.sz x' ≤ N := by
+        intro nm' x' hm
+        cases x <;> simp [J.view, allItems] at hc
+        · subst hc; have := sz_mem_listItems _ nm' x' hm; omega
+        · subst hc; have := sz_mem_dictItems _ nm' x' hm; omega
+      have hitems : Paired L (recItems k last vi (.child n nm x) its) :=
+        Paired.flatMap _ its (fun it hit => ihN it.2 (hsmall it.1 it.2 hit) (.child n nm x) it.1)
+      have h0 := hk n (.imag (.child n nm x))
+      have := (h0.append hitems).append (paired_miss L (.child n nm x) (vi+1))
+      simpa [List.append_assoc] using this
+
+/-- every hit of the stream is directly followed by its result -/
+theorem stream_paired (p : List (Step J)) (hne : p ≠ []) (hs : PredsStamped p) (hsil : PredsSilent p) :
+    ∀ (vi : Nat) (n : MNode J), Paired (vi + p.length) (stream p vi n) := by
+  induction p with
+  | nil => exact absurd rfl hne
+  | cons s rest ih =>
+    intro vi n
+    have hs' : PredsStamped rest := fun t ht => hs t (List.mem_cons_of_mem _ ht)
+    have hsil' : PredsSilent rest := fun t ht => hsil t (List.mem_cons_of_mem _ ht)
+    have hk : ∀ n' m : MNode J, Paired (vi + (s :: rest).length) (.attempt n' (vi+1) (some m) none :: stream rest (vi+1) m) := by
+      intro n' m
+      cases rest with
+      | nil =>
+        have : vi + [s].length = vi + 1 := rfl
+        rw [this]
+        simpa [stream] using Paired.hit n' m [] .nil
+      | cons r rs =>
+        have := ih (by simp) hs' hsil' (vi+1) m
+        have hL : vi + 1 + (r :: rs).length = vi + (s :: r :: rs).length := by simp [List.length_cons]; omega
+        rw [hL] at this
+        have hne' : ¬ vi + 1 = vi + (s :: r :: rs).length := by simp [List.length_cons]
+        exact .other _ _ (by simp [leafHit, hne']) (by intro m' hm; cases hm) this
+    have miss := paired_miss (vi + (s :: rest).length) n (vi+1)
+    cases hcls : s.cls with
+    | single =>
+      simp only [stream, hcls]
+      cases hso : singleOf J.view s n with
+      | none => exact miss
+      | some n' => exact hk n n'
+    | filter =>
+      cases s <;> simp [Step.cls] at hcls
+      rename_i f
+      have h1 := paired_of_own (vi + (Step.filter f :: rest).length) _ (hs (.filter f) (by simp) f rfl n)
+        (hsil (.filter f) (by simp) f rfl n)
+      simp only [stream, Step.cls]
+      refine .other _ _ rfl (by intro m hm; cases hm) (h1.append ?_)
+      cases hr : (f n).res with
+      | val j =>
+        by_cases ht : j.truthy
+        · simp only [ht, if_true]; exact hk n (.imag n)
+        · simp only [ht]; exact miss
+      | raise e => exact .other _ _ rfl (by intro m hm; cases hm) .nil
+    | multi =>
+      simp only [stream, hcls]
+      cases hio : itemsOf s n.data.view with
+      | wrongKind => exact miss
+      | valueError => exact .other _ _ rfl (by intro m hm; cases hm) .nil
+      | ok its => exact (Paired.flatMap _ its (fun it _ => hk n (.child n it.1 it.2))).append miss
+    | recur =>
+      cases s <;> simp [Step.cls] at hcls
+      simp only [stream, Step.cls]
+      cases hc : allItems n.data.view with
+      | none =>
+        have hnc : n.data.isContainer = false := by
+          have := allItems_isContainer n.data; rw [hc] at this; simpa using this.symm
+        simp only [hnc]
+        exact miss
+      | some its =>
+        have hnc : n.data.isContainer = true := by
+          have := allItems_isContainer n.data; rw [hc] at this; simpa using this.symm
+        have hB : rest.isEmpty = true ↔ vi + 1 = vi + (Step.recur :: rest).length := by
+          cases rest <;> simp [List.length_cons]
+        have hitems : Paired (vi + (Step.recur :: rest).length) (recItems (fun m => stream rest (vi+1) m) rest.isEmpty vi n its) :=
+          Paired.flatMap _ its (fun it _ =>
+            paired_recChild (fun m => stream rest (vi+1) m) rest.isEmpty vi _ hB hk (J.sz it.2) it.2 (Nat.le_refl _) n it.1)
+        have := ((hk n (.imag n)).append hitems).append miss
+        simpa [hnc, recBody_items _ _ _ _ _ its hc, List.append_assoc] using this
+
+/-- **leaf events = results, through the first exception** -/
+theorem leaf_hits_are_results_x (p : List (Step J)) (hne : p ≠ []) (hs : PredsStamped p) (hsil : PredsSilent p)
+    (vi : Nat) (n : MNode J) :
+    leafHits (vi + p.length) (takeThroughRaise (stream p vi n)) = resultsOf (takeThroughRaise (stream p vi n)) :=
+  (stream_paired p hne hs hsil vi n).ttr.hits_eq
+
 end Treepath
